@@ -5,3 +5,4 @@ import FggsProofs.Props.C16
 import FggsProofs.Props.C15
 import FggsProofs.Props.C14
 import FggsProofs.Props.C17
+import FggsProofs.Props.C10
